@@ -964,15 +964,22 @@ func callBuiltin(caller *frame, callpos token.Pos, fn *ssa.Builtin, args []value
 		if s, ok := args[1].(string); ok {
 			// append([]byte, ...string) []byte
 			arg0 := args[0].([]value)
+			if i.spec != nil && len(s) > 0 && len(arg0) < cap(arg0) {
+				panic(specBail{"append in place"})
+			}
 			for i := 0; i < len(s); i++ {
 				arg0 = append(arg0, s[i])
 			}
 			return arg0
 		}
 		// append([]T, ...[]T) []T
+		if i.spec != nil && len(args[1].([]value)) > 0 && len(args[0].([]value)) < cap(args[0].([]value)) {
+			panic(specBail{"append in place"})
+		}
 		return append(args[0].([]value), args[1].([]value)...)
 
 	case "copy": // copy([]T, []T) int or copy([]byte, string) int
+		i.bailIfSpeculating("copy")
 		src := i.concreteStr(args[1])
 		if _, ok := src.(string); ok {
 			params := fn.Type().(*types.Signature).Params()
@@ -994,6 +1001,11 @@ func callBuiltin(caller *frame, callpos token.Pos, fn *ssa.Builtin, args []value
 		m := args[0].(*omap)
 		if m == nil {
 			return nil
+		}
+		if i.spec != nil {
+			if _, fresh := i.freshMaps[m]; !fresh {
+				panic(specBail{"map delete"})
+			}
 		}
 		if m.frozen {
 			i.frozenWrite("delete from a frozen map")
